@@ -6,7 +6,7 @@ From Coq Require Import String ZArith List Bool.
 From V Require Import Base.Int Base.IO Spec.Gregorian Model.TimeDelta Model.DateTime Model.C03 Proofs.C06 Proofs.C03.
 From V Require Model.Date Model.Time Proofs.C03Headroom Proofs.C03Zone Proofs.C03Nth.
 From V Require Import Proofs.C03Ops Proofs.C03Adapt.
-From V Require Judge.C03 Proofs.C03Holds Proofs.C03HoldsAr.
+From V Require Judge.C03 Proofs.C03Holds Proofs.C03HoldsAr Proofs.C03HoldsNth.
 Import ListNotations.
 Open Scope Z_scope.
 
@@ -702,3 +702,26 @@ Example C03_holds_arith_inhabited :
     (run B"ar.opdasg" [VTup [VInt 2024; VInt 60]; VInt 1; VTup [VInt 86399; VInt 999999999]]) = JOk.
 Proof. exact Proofs.C03HoldsAr.arith_examples. Qed.
 Print Assumptions C03_holds_arith_inhabited.
+
+(* ---- nth / nth_back (ops it.dnth, it.wnth): accepted by the judge for every valid start date, both
+        directions, every jump n : u64 the op is defined for - n <= 3000 anywhere, any n within ten years of
+        the end the jump runs to (there fewer than 4000 items remain, so the model's loop of 4000 steps reaches
+        the end of the sequence: Proofs/C03HoldsNth.v nth_past) - and every cap in 0..=5000.  With
+        C03_holds_observe .. C03_holds_step_by this covers all 16 iterator ops. ---- *)
+Theorem C03_holds_nth : forall y o n fwd cap,
+  year_in_range y = true -> valid_yo y o = true -> in_u64 n = true ->
+  n <= 3000 \/ Proofs.C03Holds.near_end_y y fwd = true -> 0 <= cap <= 5000 ->
+  let args := [Proofs.C03Holds.vd y o; VInt n; VInt (Proofs.C03Holds.dirv fwd); VInt cap] in
+  Judge.C03.judge B"it.dnth" args (run B"it.dnth" args) = JOk /\
+  Judge.C03.judge B"it.wnth" args (run B"it.wnth" args) = JOk.
+Proof. exact Proofs.C03HoldsNth.holds_nth. Qed.
+Print Assumptions C03_holds_nth.
+Example C03_holds_nth_inhabited :
+  year_in_range 262142 = true /\ valid_yo 262142 100 = true /\ in_u64 18446744073709551615 = true /\
+  Proofs.C03Holds.near_end_y 262142 true = true /\
+  run B"it.dnth" [Proofs.C03Holds.vd 262142 100; VInt 18446744073709551615; VInt 0; VInt 10]
+    = VTup [VNone; VNone; VSome (VInt 0)] /\
+  run B"it.wnth" [Proofs.C03Holds.vd 2024 60; VInt 2; VInt 1; VInt 0]
+    = VTup [VSome (Proofs.C03Holds.vd 2024 46); VSome (Proofs.C03Holds.vd 2024 39); VNone].
+Proof. exact Proofs.C03HoldsNth.nth_examples. Qed.
+Print Assumptions C03_holds_nth_inhabited.
